@@ -171,7 +171,8 @@ def r19_2(ctx, rule='R19.2'):
     ok = all(q.has_guard(fi, n, 'self.returncode is None', True) for (n, c) in wp)
     ctx.ob(rule, 'poll:cached-code-short-circuits', ok, fi, None, 'waitpid only while returncode is None')
     rets = [n for n in cfg.where(lambda n: n.kind == 'stmt' and isinstance(n.ast, ast.Return))]
-    ok = all(n.ast.value is not None and ast.unparse(n.ast.value) in ('self.returncode', 'None') for n in rets)
+    ok = all(n.ast.value is None or ast.unparse(n.ast.value) in ('self.returncode', 'None') for n in rets) and \
+        any(n.ast.value is not None and ast.unparse(n.ast.value) == 'self.returncode' for n in rets)
     ctx.ob(rule, 'poll:returns-the-code', ok, fi, None, 'returns self.returncode (or None while running)')
     fs = m.func('popen_forkserver:Popen.poll')
     fdefs = q.assigns(fs, 'self.returncode')
@@ -258,7 +259,8 @@ def r19_4(ctx):
     q.need(disc, 'BaseProcess.join never discards the child')
     w_ = [(n, c) for (n, c) in q.calls(jn, 'self._popen.wait')]
     q.need(w_, 'BaseProcess.join does not call self._popen.wait')
-    res = ast.unparse(w_[0][0].ast.targets[0]) if isinstance(w_[0][0].ast, ast.Assign) else None
+    res = ast.unparse(w_[0][0].ast.targets[0]) if isinstance(w_[0][0].ast, ast.Assign) else \
+        jn.canon(w_[0][1]) if w_[0][0].kind == 'test' else None      # ... or the answer tested where it is asked
     ok = res is not None and all(q.has_guard(jn, d, res + ' is None', False) for d in disc)
     ctx.ob('R19.4', 'join:discards-only-after-exit', ok, jn, disc[0], 'child discarded only when wait() returned a code')
     ok = ast.unparse(w_[0][1].args[0]) == jn.positional_params()[1] if w_[0][1].args else False
@@ -317,6 +319,11 @@ def r19_5(ctx):
     code = ast.unparse(runs[0].ast.targets[0]) if isinstance(runs[0].ast, ast.Assign) else None
     wr = [n for (n, c) in q.calls(so, 'write_unsigned') if len(c.args) == 2 and ast.unparse(c.args[1]) == code]
     ok = code is not None and bool(wr) and cfg.must_pass(runs, [cfg.exit], wr, skip_labels=('x',))[0]
+    if code is None:
+        # the status handed over where it is produced: write_unsigned(child_w, spawn._main(child_r))
+        wr = [n for (n, c) in q.calls(so, 'write_unsigned') if len(c.args) == 2 and isinstance(c.args[1], ast.Call)
+              and so.callee(c.args[1]) == 'spawn._main']
+        ok = bool(wr) and all(r0 in wr for r0 in runs)
     ctx.ob('R19.5', '_serve_one:exit-code-written-back', ok, so, wr[0] if wr else None,
            'code = spawn._main(child_r); write_unsigned(child_w, code)')
     ex = [(n, c) for (n, c) in q.calls(mn, 'os._exit')]
